@@ -461,6 +461,36 @@ def run(ctx):
             n_seq_fail += 1
             hist_failures.append({"case": {"scenario": e2e.jsonable(sc)}, "why": why, "impl": e2e.statuses(r)})
     ctx.log("keep-alive sequences: %d (%d requests), %d failing" % (len(seq_scs), sum(len(st) for st, _ in seq_plan), n_seq_fail))
+    # the same sequences through the model (LimitSeq.c15_seq_case = serve_connection on lengths; the host counts as unusable for the
+    # requests that follow a response after which it closed its side)
+    seq_disagreements = []
+    if not broken:
+        sexprs = []
+        for steps, close_after in seq_plan:
+            items = []
+            for i, st in enumerate(steps):
+                path, q = rc.split_target(st["target"])
+                declared = st["n"] if (st["chunks"] is None and not st["bodyless"]) else None
+                lens = [] if st["bodyless"] else ([st["n"]] if st["chunks"] is None else st["chunks"])
+                up = close_after is None or i <= close_after
+                items.append("(%s, %s, %s, 0%%N, %s, %s, false, %s)" % (
+                    cb(st["method"]), cb(path), rc.coq_opt(q), "(@None N)" if declared is None else "(Some %d%%N)" % declared,
+                    clist(["%d%%N" % x for x in lens], "N"), "true" if up else "false"))
+            sexprs.append("c15_seq_case %s" % clist(items))
+        smodel = vplib.coq_eval(ctx, "From GPA Require Import LimitSeq.", sexprs, shard=10, name="seq")
+        for sc, (steps, close_after), r, mo in zip(seq_scs, seq_plan, seq_res, smodel):
+            if not r.get("ok"):
+                continue
+            infos = [i for cs in r["upstream"].values() for c in cs for i in c.get("request_info", [])]
+            rs = r["connections"][0]["responses"] if r.get("connections") else []
+            for i, (st, mv) in enumerate(zip(steps, mo)):
+                mine = [x for x in infos if ("x-tag: %s\r\n" % st["tag"]).encode() in x["head"]]
+                status = rs[i].get("status") if i < len(rs) and rs[i].get("complete") else None
+                impl = ("VRelayed", mine[0]["body_len"]) if mine else ("VLocal", status)
+                if tuple(mv[2]) != impl or mv[0] != prop_limit(st["method"], st["target"]):
+                    seq_disagreements.append({"case": {"scenario": e2e.jsonable(sc), "step": i},
+                                              "model": {"limit": mv[0], "exempt": mv[1], "verdict": mv[2]}, "impl": {"verdict": impl}})
+        ctx.log("keep-alive sequences vs LimitSeq.serve_connection: %d steps, %d differ" % (sum(len(m) for m in smodel), len(seq_disagreements)))
 
     # ---------------- model ----------------
     exprs = []
@@ -479,7 +509,7 @@ def run(ctx):
     model = vplib.coq_eval(ctx, "From GPA Require Import Limit.", exprs, shard=40) if not broken else [None] * len(exprs)
 
     # ---------------- compare + property ----------------
-    disagreements, failures = [], list(hist_failures)
+    disagreements, failures = list(seq_disagreements), list(hist_failures)
     outcomes = {}
     for i, (c, r, mo) in enumerate(zip(cases, results, model)):
         replay = {"scenario": e2e.jsonable(scenarios[i]), "case": {k: v for k, v in c.items() if k != "chunks"},
